@@ -18,6 +18,7 @@ import (
 	"k8s.io/apimachinery/pkg/types"
 	"k8s.io/klog/v2"
 
+	"github.com/koordinator-sh/koordinator/apis/extension"
 	schedulingconfig "github.com/koordinator-sh/koordinator/pkg/scheduler/apis/config"
 	"github.com/koordinator-sh/koordinator/pkg/scheduler/frameworkext/topologymanager"
 	"github.com/koordinator-sh/koordinator/pkg/util/bitmask"
@@ -39,41 +40,208 @@ func (discardWriter) Write(p []byte) (int, error) { return len(p), nil }
 
 type c06Topo struct {
 	sockets, nodesPerSocket, coresPerNode, threads int
-	sparse                                          bool
+	sparse                                          bool // kept for the log: layout != dense
+	layout                                          int  // 0 dense (siblings adjacent), 1 sibling-sparse (cpu, cpu+N/threads), 2 cores numbered round-robin over the NUMA nodes
+	idGap, idBase                                   int  // cpu id = idBase + x + x/idGap (idGap 0: no holes): ids with holes / not starting at 0
+	nodeMode                                        int  // NUMA node ids: 0 = 0..k-1 grouped by socket, 1 = with holes (2i+1), 2 = interleaved over the sockets, 3 = offset (i+3)
+	socketMode                                      int  // socket ids: 0 = 0..k-1, 1 = with holes (2s+1)
+	coreMode                                        int  // core ids: 0 = unique over the machine, 1 = restart at 0 in every socket, 2 = restart + stride 2 (holes, as the kernel reports)
+	offline                                         int  // number of logical CPUs that are offline (not reported): asymmetric topology
+	nodeIDs                                         []int
 	topo                                            *CPUTopology
 }
 
 func (t c06Topo) String() string {
-	return fmt.Sprintf("%dx%dx%dx%d sparse=%v", t.sockets, t.nodesPerSocket, t.coresPerNode, t.threads, t.sparse)
+	return fmt.Sprintf("%dx%dx%dx%d layout=%d idgap=%d/%d nodeids=%v sockmode=%d coremode=%d offline=%d", t.sockets, t.nodesPerSocket, t.coresPerNode, t.threads, t.layout, t.idGap, t.idBase, t.nodeIDs, t.socketMode, t.coreMode, t.offline)
 }
 
-// c06GenTopo builds a topology through the package's own builder. With sparse ids the logical CPU
-// ids follow the usual Linux layout (thread siblings are cpu and cpu+N/threads) instead of being
-// adjacent.
+// regular: the topology is a full product sockets x NUMA nodes x cores x threads (the quantifier's space).
+// With offline CPUs it is not; koordinator derives CPUs-per-core/-node by division, so the policy clauses
+// are only counted there, not asserted.
+func (t c06Topo) regular() bool { return t.offline == 0 }
+
+// Class is the coarse shape used for the distinct-state evidence.
+func (t c06Topo) Class() string {
+	return fmt.Sprintf("%dx%dx%dx%d/%d/%d/%v", t.sockets, t.nodesPerSocket, t.coresPerNode, t.threads, t.layout, t.nodeMode, t.offline > 0)
+}
+
+// c06GenReserved draws the node's reserved CPUs (kubelet reserved / node reservation / system QoS): none,
+// scattered CPUs, whole cores, one whole NUMA node, or the lowest ids (the usual "0-3").
+func c06GenReserved(r *kit.Rand, tp c06Topo) cpuset.CPUSet {
+	topo := tp.topo
+	all := topo.CPUDetails.CPUs().ToSlice()
+	b := cpuset.NewCPUSetBuilder()
+	switch r.Weighted(58, 20, 10, 5, 7) {
+	case 1:
+		for _, id := range all {
+			if r.Pct(12) {
+				b.Add(id)
+			}
+		}
+	case 2:
+		for _, core := range topo.CPUDetails.Cores().ToSlice() {
+			if r.Pct(15) {
+				b.Add(topo.CPUDetails.CPUsInCores(core).ToSliceNoSort()...)
+			}
+		}
+	case 3:
+		if len(tp.nodeIDs) > 1 {
+			b.Add(topo.CPUDetails.CPUsInNUMANodes(kit.Pick(r, tp.nodeIDs)).ToSliceNoSort()...)
+		}
+	case 4:
+		k := r.Range(1, 4)
+		for i := 0; i < k && i < len(all); i++ {
+			b.Add(all[i])
+		}
+	}
+	return b.Result()
+}
+
+// c06CountTopo records which of the rarer topology dimensions a case drew (evidence).
+func c06CountTopo(c *kit.Case, t c06Topo) {
+	if t.sockets >= 3 {
+		c.Count("topo_sockets_ge_3", 1)
+	}
+	if t.nodeMode != 0 {
+		c.Count("topo_numa_ids_not_0_to_k", 1)
+	}
+	if t.layout == 2 || t.idGap > 0 {
+		c.Count("topo_cpu_ids_interleaved_or_with_holes", 1)
+	}
+	if t.coreMode != 0 || t.socketMode != 0 {
+		c.Count("topo_core_or_socket_ids_kernel_style", 1)
+	}
+	if t.offline > 0 {
+		c.Count("topo_irregular_offline_cpus", 1)
+	}
+	if t.threads >= 4 {
+		c.Count("topo_threads_ge_4", 1)
+	}
+}
+
+// cpusIn returns the number of CPUs of NUMA node id.
+func (t c06Topo) cpusIn(node int) int { return t.topo.CPUDetails.CPUsInNUMANodes(node).Size() }
+
+// c06GenTopo draws a topology shape; c06BuildTopo builds it through the package's own builder.
+// Dimensions: 1-4 sockets, 1/2/4 NUMA nodes per socket, 1-8 (rarely up to 24) cores per node, 1/2/4 (rarely 8)
+// threads; three logical-CPU numbering layouts, optionally with holes / an offset in the CPU ids; NUMA node
+// ids contiguous, with holes, interleaved over the sockets or offset; socket ids with holes; core ids unique
+// or restarting per socket (with holes), as the kernel reports them; rarely 1-3 CPUs offline.
 func c06GenTopo(r *kit.Rand) c06Topo {
 	t := c06Topo{
 		sockets:        kit.Pick(r, []int{1, 1, 2, 2, 2, 3, 4}),
 		nodesPerSocket: kit.Pick(r, []int{1, 1, 2, 2, 4}),
 		coresPerNode:   r.Range(1, 8),
 		threads:        kit.Pick(r, []int{1, 2, 2, 2, 4}),
-		sparse:         r.Pct(40),
+	}
+	if r.Pct(3) {
+		t.threads = 8
+	}
+	if r.Pct(3) {
+		t.coresPerNode = r.Range(9, 24)
+	}
+	for t.sockets*t.nodesPerSocket*t.coresPerNode*t.threads > 192 {
+		t.coresPerNode = (t.coresPerNode + 1) / 2
+	}
+	t.layout = r.Weighted(45, 35, 20)
+	if r.Pct(15) {
+		t.idGap = kit.Pick(r, []int{1, 3, 7})
+		t.idBase = kit.Pick(r, []int{0, 1, 64})
+	}
+	t.nodeMode = r.Weighted(64, 14, 14, 8)
+	t.socketMode = r.Weighted(90, 10)
+	t.coreMode = r.Weighted(50, 30, 20)
+	if r.Pct(6) {
+		t.offline = r.Range(1, 3)
+	}
+	return c06BuildTopo(t, r)
+}
+
+// c06BuildTopo builds the CPUTopology of the shape. r is only used to choose the offline CPUs.
+func c06BuildTopo(t c06Topo, r *kit.Rand) c06Topo {
+	t.sparse = t.layout != 0
+	type cpu struct{ socket, node, core, id int }
+	var cpus []cpu
+	totalNodes := t.sockets * t.nodesPerSocket
+	cores := totalNodes * t.coresPerNode
+	t.nodeIDs = nil
+	for s := 0; s < t.sockets; s++ {
+		socketID := s
+		if t.socketMode == 1 {
+			socketID = 2*s + 1
+		}
+		for n := 0; n < t.nodesPerSocket; n++ {
+			nodeIdx := s*t.nodesPerSocket + n
+			nodeID := nodeIdx
+			switch t.nodeMode {
+			case 1:
+				nodeID = 2*nodeIdx + 1
+			case 2:
+				nodeID = n*t.sockets + s
+			case 3:
+				nodeID = nodeIdx + 3
+			}
+			t.nodeIDs = append(t.nodeIDs, nodeID)
+			for c := 0; c < t.coresPerNode; c++ {
+				coreIdx := nodeIdx*t.coresPerNode + c // position of the core in the machine
+				coreID := coreIdx
+				switch t.coreMode {
+				case 1:
+					coreID = n*t.coresPerNode + c
+				case 2:
+					coreID = 2 * (n*t.coresPerNode + c)
+				}
+				for p := 0; p < t.threads; p++ {
+					x := coreIdx*t.threads + p
+					switch t.layout {
+					case 1:
+						x = p*cores + coreIdx
+					case 2:
+						x = p*cores + c*totalNodes + nodeIdx
+					}
+					if t.idGap > 0 {
+						x = t.idBase + x + x/t.idGap
+					}
+					cpus = append(cpus, cpu{socketID, nodeID, coreID, x})
+				}
+			}
+		}
+	}
+	sort.Ints(t.nodeIDs)
+	if t.offline >= len(cpus) {
+		t.offline = len(cpus) - 1
+	}
+	off := map[int]bool{}
+	if t.offline > 0 && r != nil {
+		for _, i := range r.Perm(len(cpus))[:t.offline] {
+			off[i] = true
+		}
+		// a NUMA node whose CPUs are all offline disappears from the CPU topology: keep at least one CPU per node
+		left := map[int]int{}
+		for i, c := range cpus {
+			if !off[i] {
+				left[c.node]++
+			}
+		}
+		for i, c := range cpus {
+			if off[i] && left[c.node] == 0 {
+				off[i] = false
+				left[c.node]++
+			}
+		}
+		t.offline = len(off)
+		for i := range off {
+			if !off[i] {
+				t.offline--
+			}
+		}
+	} else {
+		t.offline = 0
 	}
 	b := NewCPUTopologyBuilder()
-	cores := t.sockets * t.nodesPerSocket * t.coresPerNode
-	coreID := 0
-	for s := 0; s < t.sockets; s++ {
-		for n := 0; n < t.nodesPerSocket; n++ {
-			nodeID := s*t.nodesPerSocket + n
-			for c := 0; c < t.coresPerNode; c++ {
-				for p := 0; p < t.threads; p++ {
-					cpuID := coreID*t.threads + p
-					if t.sparse {
-						cpuID = p*cores + coreID
-					}
-					b.AddCPUInfo(s, nodeID, coreID, cpuID)
-				}
-				coreID++
-			}
+	for i, c := range cpus {
+		if !off[i] {
+			b.AddCPUInfo(c.socket, c.node, c.core, c.id)
 		}
 	}
 	t.topo = b.Result()
@@ -120,13 +288,14 @@ func c06OnePerCore(topo *CPUTopology, cpus cpuset.CPUSet) bool {
 // (a) takeCPUs / takePreferredCPUs
 
 func TestVerifC06TakeCPUs(t *testing.T) {
-	kit.Run(t, kit.Config{Property: "C06", Unit: "takecpus", Quick: 20000, Thorough: 1000000,
-		Rule: "random topology (sockets x numa x cores x threads, dense or sibling-sparse ids), random per-CPU ref counts/exclusive marks, reserved set, maxRefCount 1-3, all bind/exclusive policies and NUMA strategies, request 1..avail+1; distinct = (topology, policy, exclusive, strategy, maxRef, request, free-pattern class, outcome); non-trivial = asymmetric free set (some but not all CPUs free)"},
+	kit.Run(t, kit.Config{Property: "C06", Unit: "takecpus", Quick: 14000, Thorough: 1000000,
+		Rule: "random topology (1-4 sockets x 1/2/4 numa x 1-24 cores x 1/2/4/8 threads; three cpu-id layouts, ids with holes/offset; NUMA ids contiguous/with holes/interleaved over sockets/offset; socket ids with holes; core ids unique or restarting per socket; 6% with 1-3 CPUs offline), random per-CPU ref counts/exclusive marks, reserved set (scattered, whole cores, a whole NUMA node, lowest ids), maxRefCount 1-4, all bind/exclusive policies and NUMA strategies, request 0..avail+1; distinct = (topology, policy, exclusive, strategy, maxRef, request, free-pattern class, outcome); non-trivial = asymmetric free set (some but not all CPUs free)"},
 		func(c *kit.Case) {
 			r := c.R
 			tp := c06GenTopo(r)
 			topo := tp.topo
-			maxRef := kit.Pick(r, []int{1, 1, 1, 2, 3})
+			c06CountTopo(c, tp)
+			maxRef := kit.Pick(r, []int{1, 1, 1, 1, 2, 2, 3, 4})
 			all := topo.CPUDetails.CPUs().ToSlice()
 			allocated := NewCPUDetails()
 			fill := r.Intn(101)
@@ -139,22 +308,16 @@ func TestVerifC06TakeCPUs(t *testing.T) {
 				}
 			}
 			full := allocated.CPUs().Filter(func(id int) bool { return allocated[id].RefCount >= maxRef })
-			reserved := cpuset.NewCPUSet()
-			if r.Pct(30) {
-				b := cpuset.NewCPUSetBuilder()
-				for _, id := range all {
-					if r.Pct(15) {
-						b.Add(id)
-					}
-				}
-				reserved = b.Result()
-			}
+			reserved := c06GenReserved(r, tp)
 			available := topo.CPUDetails.CPUs().Difference(full).Difference(reserved)
 			if r.Pct(25) && topo.NumNodes > 1 {
 				// restricted to one NUMA node as allocateCPUSet does
-				available = available.Intersection(topo.CPUDetails.CPUsInNUMANodes(r.Intn(topo.NumNodes)))
+				available = available.Intersection(topo.CPUDetails.CPUsInNUMANodes(kit.Pick(r, tp.nodeIDs)))
 			}
 			n := r.Range(1, available.Size()+1)
+			if r.Pct(1) {
+				n = 0 // allocateCPUSet asks for 0 CPUs of a NUMA node whose share is 0
+			}
 			bind := kit.Pick(r, c06BindPolicies)
 			excl := kit.Pick(r, c06ExclPolicies)
 			strat := kit.Pick(r, c06Strategies)
@@ -185,7 +348,7 @@ func TestVerifC06TakeCPUs(t *testing.T) {
 				freeClass = "partial"
 				c.NonTrivial()
 			}
-			c.Seen(tp.String(), bind, excl, strat, maxRef, n, freeClass, err == nil)
+			c.Seen(tp.Class(), bind, excl, strat, maxRef, n, freeClass, err == nil)
 			if err != nil {
 				c.Count("takecpus_fail", 1)
 				if available.Size() >= n {
@@ -226,32 +389,87 @@ type c06Pod struct {
 	alloc *PodAllocation // nil when not live
 }
 
+// c06Hugepages is the third resource kind some NUMA zones report (and some do not).
+const c06Hugepages = corev1.ResourceName("hugepages-2Mi")
+
+// c06GenNUMARes draws the per-NUMA capacities as the NodeResourceTopology handler computes them: cpu = the
+// node's CPUs minus the reserved ones, memory, and (30%) hugepages on some of the nodes only.
+func c06GenNUMARes(r *kit.Rand, tp c06Topo, reserved cpuset.CPUSet, memPerNode int64) []NUMANodeResource {
+	var numaRes []NUMANodeResource
+	huge := r.Pct(30)
+	for _, n := range tp.nodeIDs {
+		free := tp.topo.CPUDetails.CPUsInNUMANodes(n).Difference(reserved).Size()
+		rl := corev1.ResourceList{
+			corev1.ResourceCPU:    *resource.NewMilliQuantity(int64(free)*1000, resource.DecimalSI),
+			corev1.ResourceMemory: *resource.NewQuantity(memPerNode, resource.BinarySI),
+		}
+		if huge && r.Pct(70) {
+			rl[c06Hugepages] = *resource.NewQuantity(int64(kit.Pick(r, []int{0, 8, 32})), resource.BinarySI)
+		}
+		numaRes = append(numaRes, NUMANodeResource{Node: n, Resources: rl})
+	}
+	return numaRes
+}
+
+// c06ModelFree recomputes what is free per NUMA node from the capacities and the live pods' allocations.
+func c06ModelFree(numaRes []NUMANodeResource, live []*PodAllocation) map[int]corev1.ResourceList {
+	free := map[int]corev1.ResourceList{}
+	for _, nr := range numaRes {
+		free[nr.Node] = nr.Resources.DeepCopy()
+	}
+	for _, a := range live {
+		for _, nr := range a.NUMANodeResources {
+			for name, q := range nr.Resources {
+				cur, ok := free[nr.Node][name]
+				if !ok {
+					continue
+				}
+				cur.Sub(q)
+				if cur.Sign() < 0 {
+					cur = *resource.NewQuantity(0, cur.Format)
+				}
+				free[nr.Node][name] = cur
+			}
+		}
+	}
+	return free
+}
+
+// c06DivisibleEnough: every requested resource that some NUMA node reports has enough free over the hinted nodes.
+func c06DivisibleEnough(reqs corev1.ResourceList, free map[int]corev1.ResourceList, hint []int) bool {
+	for name, q := range reqs {
+		reported := false
+		for _, rl := range free {
+			if _, ok := rl[name]; ok {
+				reported = true
+			}
+		}
+		if !reported {
+			continue
+		}
+		var sum resource.Quantity
+		for _, h := range hint {
+			sum.Add(free[h][name])
+		}
+		if sum.Cmp(q) < 0 {
+			return false
+		}
+	}
+	return true
+}
+
 func TestVerifC06Ledger(t *testing.T) {
-	kit.Run(t, kit.Config{Property: "C06", Unit: "ledger", Quick: 400, Thorough: 12000,
-		Rule: "histories of 50-300 allocate(+commit)/re-allocate/release/double-release/release-unknown operations over 3-10 pods on one node of a real resourceManager, random topology, maxRefCount 1-3, reserved CPUs, NUMA hints over random subsets; oracle after every step; distinct = (topology, maxRef, op, policy, outcome, live pods); non-trivial = case in which an allocation was refused for lack of CPUs and a later one succeeded after a release"},
+	kit.Run(t, kit.Config{Property: "C06", Unit: "ledger", Quick: 340, Thorough: 12000,
+		Rule: "histories of 50-300 allocate(+commit)/re-allocate/release/double-release/release-unknown operations over 3-10 pods on one node of a real resourceManager, random topology (all dimensions of c06GenTopo incl. NUMA ids with holes), maxRefCount 1-4, reserved CPUs (scattered/whole cores/whole NUMA node/lowest ids), per-NUMA cpu+memory(+hugepages on some nodes), NUMA strategy from the manager default or the node label, cpuset requests (any size incl. not a multiple of the threads per core, preferred or required policy) and 20% NUMA-amount-only requests (milli-CPU, memory, hugepages), NUMA hints over random subsets of the real node ids; oracle after every step; distinct = (topology class, maxRef, op, policy, outcome, live pods); non-trivial = case in which an allocation was refused for lack of CPUs and a later one succeeded after a release"},
 		func(c *kit.Case) {
 			r := c.R
 			tp := c06GenTopo(r)
 			topo := tp.topo
-			maxRef := kit.Pick(r, []int{1, 1, 1, 2, 3})
-			reserved := cpuset.NewCPUSet()
-			if r.Pct(40) {
-				b := cpuset.NewCPUSetBuilder()
-				for id := range topo.CPUDetails {
-					if r.Pct(12) {
-						b.Add(id)
-					}
-				}
-				reserved = b.Result()
-			}
+			c06CountTopo(c, tp)
+			maxRef := kit.Pick(r, []int{1, 1, 1, 1, 2, 2, 3, 4})
+			reserved := c06GenReserved(r, tp)
 			memPerNode := int64(kit.Pick(r, []int{16, 64, 100, 1 << 20}))
-			var numaRes []NUMANodeResource
-			for n := 0; n < topo.NumNodes; n++ {
-				numaRes = append(numaRes, NUMANodeResource{Node: n, Resources: corev1.ResourceList{
-					corev1.ResourceCPU:    *resource.NewMilliQuantity(int64(topo.CPUsPerNode())*1000, resource.DecimalSI),
-					corev1.ResourceMemory: *resource.NewQuantity(memPerNode, resource.BinarySI),
-				}})
-			}
+			numaRes := c06GenNUMARes(r, tp, reserved, memPerNode)
 			tom := NewTopologyOptionsManager()
 			const nodeName = "n0"
 			tom.UpdateTopologyOptions(nodeName, func(o *TopologyOptions) {
@@ -266,7 +484,10 @@ func TestVerifC06Ledger(t *testing.T) {
 				nodeAllocations:        map[string]*NodeAllocation{},
 			}
 			node := &corev1.Node{ObjectMeta: metav1.ObjectMeta{Name: nodeName}}
-			c.Op("topo=%s maxRef=%d reserved=%s mem/node=%d strategy=%s", tp, maxRef, reserved.String(), memPerNode, rm.numaAllocateStrategy)
+			if r.Pct(30) {
+				node.Labels = map[string]string{extension.LabelNodeNUMAAllocateStrategy: string(kit.Pick(r, c06Strategies))}
+			}
+			c.Op("topo=%s maxRef=%d reserved=%s numa=%s strategy=%s nodeLabels=%v", tp, maxRef, reserved.String(), c06NUMAResStr(numaRes), rm.numaAllocateStrategy, node.Labels)
 			npods := r.Range(3, 10)
 			pods := make([]*c06Pod, npods)
 			for i := range pods {
@@ -324,27 +545,35 @@ func TestVerifC06Ledger(t *testing.T) {
 						c.Fail("C06/ledger/unknown-cpu", "%s: ledger holds cpu %d that is not in the topology", where, id)
 					}
 				}
-				for n := 0; n < topo.NumNodes; n++ {
-					var led corev1.ResourceList
-					if na.allocatedResources[n] != nil {
-						led = na.allocatedResources[n].Resources
+				led := map[int]corev1.ResourceList{}
+				for n, res := range na.allocatedResources {
+					if res != nil {
+						led[n] = res.Resources
 					}
-					for _, name := range []corev1.ResourceName{corev1.ResourceCPU, corev1.ResourceMemory} {
-						a, b := led[name], sumRes[n][name]
-						if a.Cmp(b) != 0 {
-							c.Fail("C06/ledger/numa-amount", "%s: NUMA node %d ledger %s=%s, live pods hold %s", where, n, name, a.String(), b.String())
+				}
+				// every NUMA node (real ids, not 0..k-1) and every resource kind
+				if n, name, differ := c06AmountsDiffer(led, sumRes); differ {
+					a, b := led[n][name], sumRes[n][name]
+					c.Fail("C06/ledger/numa-amount", "%s: NUMA node %d ledger %s=%s, live pods hold %s", where, n, name, a.String(), b.String())
+				}
+				// never more than the node has
+				for _, nr := range numaRes {
+					for name, capQ := range nr.Resources {
+						a := led[nr.Node][name]
+						if a.Cmp(capQ) > 0 {
+							c.Fail("C06/ledger/numa-over", "%s: NUMA node %d ledger %s=%s exceeds its capacity %s", where, nr.Node, name, a.String(), capQ.String())
 						}
 					}
-					// never more than the node has
-					for _, nr := range numaRes {
-						if nr.Node == n {
-							for name, capQ := range nr.Resources {
-								a := led[name]
-								if a.Cmp(capQ) > 0 {
-									c.Fail("C06/ledger/numa-over", "%s: NUMA node %d ledger %s=%s exceeds its capacity %s", where, n, name, a.String(), capQ.String())
-								}
-							}
+				}
+				for n := range led {
+					known := false
+					for _, id := range tp.nodeIDs {
+						if id == n {
+							known = true
 						}
+					}
+					if !known {
+						c.Fail("C06/ledger/unknown-numa-node", "%s: the ledger accounts amounts on NUMA node %d, the node has %v", where, n, tp.nodeIDs)
 					}
 				}
 				c.Count("ledger_checks", 1)
@@ -353,6 +582,7 @@ func TestVerifC06Ledger(t *testing.T) {
 				p := kit.Pick(r, pods)
 				switch k := r.Weighted(55, 30, 5, 5, 5); k {
 				case 0: // allocate (for a new pod) or re-allocate (update of an existing pod) + commit
+					cpuBind := !r.Pct(20)
 					ncpu := r.Range(1, maxInt(1, topo.NumCPUs/2))
 					if r.Pct(10) {
 						ncpu = topo.NumCPUs + 1 - reserved.Size()
@@ -361,29 +591,45 @@ func TestVerifC06Ledger(t *testing.T) {
 					required := r.Pct(35) && (bind == schedulingconfig.CPUBindPolicyFullPCPUs || bind == schedulingconfig.CPUBindPolicySpreadByPCPUs)
 					excl := kit.Pick(r, c06ExclPolicies)
 					mem := int64(r.Range(0, int(minI64(memPerNode, 64))))
-					opts := &ResourceOptions{
-						numCPUsNeeded:         ncpu,
-						requestCPUBind:        true,
-						requiredCPUBindPolicy: required,
-						cpuBindPolicy:         bind,
-						cpuExclusivePolicy:    excl,
-						topologyOptions:       tom.GetTopologyOptions(nodeName),
+					var reqs corev1.ResourceList
+					var opts *ResourceOptions
+					if cpuBind {
+						opts = &ResourceOptions{
+							numCPUsNeeded:         ncpu,
+							requestCPUBind:        true,
+							requiredCPUBindPolicy: required,
+							cpuBindPolicy:         bind,
+							cpuExclusivePolicy:    excl,
+							topologyOptions:       tom.GetTopologyOptions(nodeName),
+						}
+						reqs = corev1.ResourceList{corev1.ResourceCPU: *resource.NewQuantity(int64(ncpu), resource.DecimalSI)}
+					} else {
+						// a pod without cpu binding (LS): only per-NUMA amounts, milli-CPU granularity
+						ncpu, required = 0, false
+						milli := int64(kit.Pick(r, []int{1, 250, 500, 1000, 1500, 2500, 4000, 7777}))
+						opts = &ResourceOptions{cpuBindPolicy: bind, topologyOptions: tom.GetTopologyOptions(nodeName)}
+						reqs = corev1.ResourceList{corev1.ResourceCPU: *resource.NewMilliQuantity(milli, resource.DecimalSI)}
 					}
-					reqs := corev1.ResourceList{corev1.ResourceCPU: *resource.NewQuantity(int64(ncpu), resource.DecimalSI)}
 					if mem > 0 {
 						reqs[corev1.ResourceMemory] = *resource.NewQuantity(mem, resource.BinarySI)
+					}
+					if r.Pct(15) {
+						reqs[c06Hugepages] = *resource.NewQuantity(int64(r.Range(1, 10)), resource.BinarySI)
+					}
+					if r.Pct(10) {
+						reqs[corev1.ResourceEphemeralStorage] = *resource.NewQuantity(1<<30, resource.BinarySI) // never reported per NUMA node
 					}
 					opts.requests = reqs.DeepCopy()
 					opts.originalRequests = reqs.DeepCopy()
 					var hintBits []int
-					if r.Pct(60) {
-						for n := 0; n < topo.NumNodes; n++ {
+					if r.Pct(60) || !cpuBind {
+						for _, n := range tp.nodeIDs {
 							if r.Pct(60) {
 								hintBits = append(hintBits, n)
 							}
 						}
 						if len(hintBits) == 0 {
-							hintBits = []int{r.Intn(topo.NumNodes)}
+							hintBits = []int{kit.Pick(r, tp.nodeIDs)}
 						}
 						m, _ := bitmask.NewBitMask(hintBits...)
 						opts.hint = topologymanager.NUMATopologyHint{NUMANodeAffinity: m}
@@ -392,13 +638,27 @@ func TestVerifC06Ledger(t *testing.T) {
 					// pre-state for the oracle
 					availBefore, _, _ := rm.GetAvailableCPUs(nodeName)
 					freeBefore, _, _ := rm.getAvailableNUMANodeResources(nodeName, opts.topologyOptions, nil)
+					var liveAllocs []*PodAllocation
+					for _, q := range pods {
+						if q.alloc != nil {
+							liveAllocs = append(liveAllocs, q.alloc)
+						}
+					}
+					modelFree := c06ModelFree(numaRes, liveAllocs)
 					alloc, status := rm.Allocate(node, pod, opts)
-					c.Op("allocate %s cpus=%d mem=%d bind=%s required=%v excl=%s hint=%v (existing=%v) -> ok=%v %s", p.uid, ncpu, mem, bind, required, excl, hintBits, p.alloc != nil, status.IsSuccess(), c06AllocStr(alloc))
-					c.Seen(tp.String(), maxRef, "alloc", bind, required, excl, len(hintBits), status.IsSuccess(), c06Live(pods))
+					c.Op("allocate %s cpuBind=%v cpus=%d reqs=%s bind=%s required=%v excl=%s hint=%v (existing=%v) -> ok=%v %s", p.uid, cpuBind, ncpu, c06RL(reqs), bind, required, excl, hintBits, p.alloc != nil, status.IsSuccess(), c06AllocStr(alloc))
+					c.Seen(tp.Class(), maxRef, "alloc", cpuBind, bind, required, excl, len(hintBits), status.IsSuccess(), c06Live(pods))
 					if !status.IsSuccess() {
 						c.Count("allocate_refused", 1)
-						if availBefore.Size() < ncpu {
+						if cpuBind && availBefore.Size() < ncpu {
 							refusedOnce = true
+						}
+						if !cpuBind {
+							c.Count("allocate_numa_only_refused", 1)
+							// completeness: milli-CPU without binding, memory and hugepages are freely divisible
+							if c06DivisibleEnough(reqs, modelFree, hintBits) {
+								c.Fail("C06/numa-split/incomplete", "Allocate of a pod without cpu binding refused (%s) although the hinted NUMA nodes %v have enough free of every requested resource: request %s, free %s", status.Message(), hintBits, c06RL(reqs), c06FreeStr(modelFree))
+							}
 						}
 						break
 					}
@@ -413,13 +673,24 @@ func TestVerifC06Ledger(t *testing.T) {
 						c.Fail("C06/allocate/not-free", "Allocate returned %s, CPUs free for this pod were %s", alloc.CPUSet.String(), availBefore.String())
 					}
 					if required && bind == schedulingconfig.CPUBindPolicyFullPCPUs && !c06FullCores(topo, alloc.CPUSet) {
-						c.Fail("C06/allocate/fullpcpus-not-satisfied", "required FullPCPUs reported satisfied but %s does not consist of whole cores", alloc.CPUSet.String())
+						if tp.regular() {
+							c.Fail("C06/allocate/fullpcpus-not-satisfied", "required FullPCPUs reported satisfied but %s does not consist of whole cores", alloc.CPUSet.String())
+						}
+						c.Count("irregular_topology_policy_mismatch", 1)
 					}
 					if required && bind == schedulingconfig.CPUBindPolicySpreadByPCPUs && !c06OnePerCore(topo, alloc.CPUSet) {
-						c.Fail("C06/allocate/spread-not-satisfied", "required SpreadByPCPUs reported satisfied but %s has two CPUs of one core", alloc.CPUSet.String())
+						if tp.regular() {
+							c.Fail("C06/allocate/spread-not-satisfied", "required SpreadByPCPUs reported satisfied but %s has two CPUs of one core", alloc.CPUSet.String())
+						}
+						c.Count("irregular_topology_policy_mismatch", 1)
 					}
 					if opts.hint.NUMANodeAffinity != nil {
 						c06CheckSplit(c, "allocate", reqs, freeBefore, hintBits, alloc.NUMANodeResources)
+						// the same against the free amounts recomputed from the live pods
+						c06CheckSplit(c, "allocate (free recomputed from the live pods)", reqs, modelFree, hintBits, alloc.NUMANodeResources)
+						if !cpuBind {
+							c.Count("allocate_numa_only_ok", 1)
+						}
 						// does the cpuset follow the per-NUMA cpu amounts? (counted, not a verdict: the
 						// statement does not relate the two)
 						perNode := map[int]int{}
@@ -428,7 +699,7 @@ func TestVerifC06Ledger(t *testing.T) {
 						}
 						for _, nr := range alloc.NUMANodeResources {
 							q := nr.Resources[corev1.ResourceCPU]
-							if int64(perNode[nr.Node])*1000 != q.MilliValue() {
+							if cpuBind && int64(perNode[nr.Node])*1000 != q.MilliValue() {
 								c.Count("cpuset_vs_numa_amount_mismatch", 1)
 							}
 						}
@@ -490,6 +761,27 @@ func TestVerifC06Ledger(t *testing.T) {
 				c.Sample(ops)
 			}
 		})
+}
+
+func c06NUMAResStr(nrs []NUMANodeResource) string {
+	s := ""
+	for _, nr := range nrs {
+		s += fmt.Sprintf("%d=%s ", nr.Node, c06RL(nr.Resources))
+	}
+	return s
+}
+
+func c06FreeStr(free map[int]corev1.ResourceList) string {
+	ids := make([]int, 0, len(free))
+	for n := range free {
+		ids = append(ids, n)
+	}
+	sort.Ints(ids)
+	s := ""
+	for _, n := range ids {
+		s += fmt.Sprintf("%d=%s ", n, c06RL(free[n]))
+	}
+	return s
 }
 
 func c06Live(pods []*c06Pod) int {
@@ -657,6 +949,90 @@ func c06Distribute(c *kit.Case, ids []int, free []int64, hint []int, resName cor
 	}
 }
 
+// c06DistributeMulti: one request for 2-4 resources (memory, milli-CPU without binding, hugepages, a resource no NUMA
+// node reports), each with its own free vector over the NUMA nodes (a node may not report a resource at all).
+// Soundness per resource; completeness: refused => at least one reported resource lacks free amount over the hint.
+func c06DistributeMulti(c *kit.Case, r *kit.Rand, ids []int, hint []int, n int) {
+	names := []corev1.ResourceName{corev1.ResourceMemory, corev1.ResourceCPU, c06Hugepages}
+	kit.Shuffle(r, names)
+	names = names[:r.Range(2, 3)]
+	total := map[int]corev1.ResourceList{}
+	for _, id := range ids {
+		total[id] = corev1.ResourceList{}
+	}
+	requests := corev1.ResourceList{}
+	mk := func(name corev1.ResourceName, v int64) resource.Quantity {
+		if name == corev1.ResourceCPU {
+			return *resource.NewMilliQuantity(v, resource.DecimalSI)
+		}
+		return *resource.NewQuantity(v, resource.BinarySI)
+	}
+	desc := ""
+	for _, name := range names {
+		var sum int64
+		frees := make([]int64, len(ids))
+		for i, id := range ids {
+			if r.Pct(12) {
+				frees[i] = -1 // this NUMA node does not report the resource
+				continue
+			}
+			frees[i] = int64(kit.Pick(r, []int{0, 0, 1, 2, 3, 7, 1000, 1024, 4000, 65536}))
+			total[id][name] = mk(name, frees[i])
+			for _, h := range hint {
+				if h == id {
+					sum += frees[i]
+				}
+			}
+		}
+		req := sum
+		switch r.Intn(5) {
+		case 0:
+			req = sum + 1
+		case 1:
+			req = sum - 1
+		case 2:
+			req = r.Int63n(sum + 1)
+		case 3:
+			req = sum/2 + 1
+		}
+		if req < 0 {
+			req = 0
+		}
+		requests[name] = mk(name, req)
+		desc += fmt.Sprintf("%s: free=%v req=%d; ", name, frees, req)
+	}
+	if r.Pct(25) {
+		requests[corev1.ResourceEphemeralStorage] = *resource.NewQuantity(5, resource.BinarySI) // reported by no NUMA node: not split, never a reason to refuse
+	}
+	freeCopy := map[int]corev1.ResourceList{}
+	for id, rl := range total {
+		freeCopy[id] = rl.DeepCopy()
+	}
+	m, err := bitmask.NewBitMask(hint...)
+	if err != nil {
+		c.Harness("bitmask: %v", err)
+	}
+	c.Op("multi ids=%v hint=%v %s", ids, hint, desc)
+	opts := &ResourceOptions{hint: topologymanager.NUMATopologyHint{NUMANodeAffinity: m}}
+	result, reasons := tryBestToDistributeEvenly(requests.DeepCopy(), total, opts)
+	enough := c06DivisibleEnough(requests, freeCopy, hint)
+	where := fmt.Sprintf("multi ids=%v hint=%v %s", ids, hint, desc)
+	c.Seen("multi", n, len(hint), len(names), enough, len(reasons) == 0)
+	c.Count("split_multi_resource", 1)
+	if len(reasons) == 0 {
+		c.Count("split_ok", 1)
+		c06CheckSplit(c, where, requests, freeCopy, hint, result)
+		if !enough {
+			c.Fail("C06/numa-split/over-commit", "%s: succeeded although the hinted nodes do not have enough of every requested resource", where)
+		}
+	} else {
+		c.Count("split_refused", 1)
+		if enough {
+			c.Fail("C06/numa-split/incomplete", "%s: refused (%v) although the hinted NUMA nodes together have enough free of every requested (freely divisible) resource", where, reasons)
+		}
+	}
+}
+
 func c06Subsets(ids []int) [][]int {
 	var out [][]int
 	for m := 1; m < 1<<len(ids); m++ {
@@ -717,11 +1093,17 @@ func TestVerifC06DistributeExhaustive(t *testing.T) {
 
 func TestVerifC06DistributeSampled(t *testing.T) {
 	kit.Run(t, kit.Config{Property: "C06", Unit: "distribute-sampled", Quick: 20000, Thorough: 600000,
-		Rule: "sampled: 2-6 NUMA nodes with arbitrary (sparse, unordered) ids, free amounts boundary-biased up to 2^40, random non-empty hint subset, memory or non-bound milli-CPU, request around the hinted free sum (sum-1, sum, sum+1, random); distinct = (#nodes, |hint|, hint starts at lowest id?, resource, request class, outcome); non-trivial = hint not starting at the lowest node id"},
+		Rule: "sampled: 2-6 (8%: 7-10) NUMA nodes with arbitrary (sparse, unordered) ids out of 0..11 or 0..63, free amounts boundary-biased up to 2^40, random non-empty hint subset (12%: also naming a node id without known free amounts), memory or non-bound milli-CPU, request around the hinted free sum (sum-1, sum, sum+1, random); 30%: one request for 2-3 resources (memory, milli-CPU, hugepages; a node may not report a resource; sometimes plus a resource no node reports) with independent free vectors; distinct = (#nodes, |hint|, hint starts at lowest id?, resource, request class, outcome); non-trivial = hint not starting at the lowest node id"},
 		func(c *kit.Case) {
 			r := c.R
 			n := r.Range(2, 6)
+			if r.Pct(8) {
+				n = r.Range(7, 10)
+			}
 			pool := r.Perm(12)
+			if r.Pct(35) {
+				pool = r.Perm(64) // the bit mask has 64 positions
+			}
 			ids := append([]int(nil), pool[:n]...)
 			if r.Pct(50) {
 				sort.Ints(ids)
@@ -790,6 +1172,21 @@ func TestVerifC06DistributeSampled(t *testing.T) {
 			if !startsLow {
 				c.NonTrivial()
 			}
+			// 12%: the hint also names a node id for which no free amount is known (a Restricted reservation offers
+			// amounts on its own NUMA nodes only, the hint comes from the whole node): nothing is free there
+			if r.Pct(12) {
+				for _, cand := range pool[n:] {
+					hint = append(hint, cand)
+					c.Count("split_hint_names_unknown_node", 1)
+					break
+				}
+				sort.Ints(hint)
+			}
+			if r.Pct(30) {
+				// several resources in one request, each with its own free vector; every one of them is freely divisible
+				c06DistributeMulti(c, r, ids, hint, n)
+				return
+			}
 			c.Op("ids=%v free=%v hint=%v res=%s req=%d", ids, free, hint, resName, req)
 			c.Seen(n, len(hint), startsLow, resName, cls, sum >= req)
 			c06Distribute(c, ids, free, hint, resName, req, milli)
@@ -814,11 +1211,12 @@ func TestVerifC06DistributeSampled(t *testing.T) {
 // critical sections.
 func TestVerifC06PendingConcurrent(t *testing.T) {
 	kit.Run(t, kit.Config{Property: "C06", Unit: "pending-conc", Quick: 2500, Thorough: 60000,
-		Rule: "restart replay: 2-6 bound pods with disjoint cpusets are delivered (Update) before the node's topology is valid, optionally after an event that created the node's allocation entry early; then the topology arrives and 3 goroutines race: scheduler reads (GetAvailableCPUs, GetAllocatedCPUSet), informer releases of a subset of the pods, informer delivery of late pods; yields at function entries; oracle at quiescence = ledger equals delivered-and-not-released pods; distinct = interleaving signature; non-trivial = at least one release raced a read"},
+		Rule: "restart replay: 2-6 bound pods with disjoint cpusets (sharing limit 2 in 25%: neighbours share up to two CPUs) and per-NUMA cpu/memory amounts are delivered (Update) before the node's topology is valid, optionally after an event that created the node's allocation entry early; then the topology arrives and 3 goroutines race: scheduler reads (GetAvailableCPUs, GetAllocatedCPUSet), informer releases of a subset of the pods, informer delivery of late pods; yields at function entries; oracle at quiescence = ledger (pods, cpu ref counts, per-NUMA amounts, free CPUs) equals delivered-and-not-released pods; distinct = interleaving signature; non-trivial = at least one release raced a read"},
 		func(c *kit.Case) {
 			r := c.R
 			tp := c06GenTopo(r)
 			topo := tp.topo
+			c06CountTopo(c, tp)
 			all := topo.CPUDetails.CPUs().ToSlice()
 			if len(all) < 4 {
 				return
@@ -835,14 +1233,46 @@ func TestVerifC06PendingConcurrent(t *testing.T) {
 			}
 			pods := make([]*pendPod, 0, npods)
 			next := 0
+			// sharing limit of the node (another plugin may raise MaxRefCount): with 2, a pod may also hold up to two
+			// CPUs of the previous pod's own set (every CPU then has at most 2 holders); only half of the CPUs are
+			// handed out so that the per-NUMA cpu amounts stay within the capacity
+			maxRef := kit.Pick(r, []int{1, 1, 1, 2})
+			share := len(all) / npods / maxRef
+			var prevOwn []int
 			for i := 0; i < npods && next < len(all); i++ {
-				k := r.Range(1, maxInt(1, len(all)/npods))
+				k := r.Range(1, maxInt(1, share))
 				b := cpuset.NewCPUSetBuilder()
+				var own []int
 				for j := 0; j < k && next < len(all); j++ {
 					b.Add(all[perm[next]])
+					own = append(own, all[perm[next]])
 					next++
 				}
-				pods = append(pods, &pendPod{alloc: &PodAllocation{UID: types.UID(fmt.Sprintf("pod-%d", i)), Name: fmt.Sprintf("pod-%d", i), Namespace: "default", CPUSet: b.Result()}, late: r.Pct(20)})
+				if maxRef > 1 && r.Pct(50) {
+					for j := 0; j < len(prevOwn) && j < 2; j++ {
+						b.Add(prevOwn[j])
+					}
+				}
+				prevOwn = own
+				set := b.Result()
+				// per-NUMA amounts as the scheduler booked them: the cpus of the set per node, some memory
+				perNode := map[int]int{}
+				for _, id := range set.ToSliceNoSort() {
+					perNode[topo.CPUDetails[id].NodeID]++
+				}
+				var nrs []NUMANodeResource
+				if r.Pct(70) {
+					for _, n := range tp.nodeIDs {
+						if perNode[n] > 0 {
+							rl := corev1.ResourceList{corev1.ResourceCPU: *resource.NewMilliQuantity(int64(perNode[n])*1000, resource.DecimalSI)}
+							if m := r.Range(0, 8); m > 0 {
+								rl[corev1.ResourceMemory] = *resource.NewQuantity(int64(m), resource.BinarySI)
+							}
+							nrs = append(nrs, NUMANodeResource{Node: n, Resources: rl})
+						}
+					}
+				}
+				pods = append(pods, &pendPod{alloc: &PodAllocation{UID: types.UID(fmt.Sprintf("pod-%d", i)), Name: fmt.Sprintf("pod-%d", i), Namespace: "default", CPUSet: set, NUMANodeResources: nrs}, late: r.Pct(20)})
 			}
 			early := r.Pct(50)
 			if early {
@@ -854,14 +1284,19 @@ func TestVerifC06PendingConcurrent(t *testing.T) {
 			for _, p := range pods {
 				if !p.late {
 					rm.Update(nodeName, p.alloc)
-					c.Op("update %s cpus=%s (before topology)", p.alloc.UID, p.alloc.CPUSet.String())
+					c.Op("update %s %s (before topology)", p.alloc.UID, c06AllocStr(p.alloc))
 				}
 			}
 			tom.UpdateTopologyOptions(nodeName, func(o *TopologyOptions) {
 				o.CPUTopology = topo
-				o.MaxRefCount = 1
+				o.MaxRefCount = maxRef
+				for _, n := range tp.nodeIDs {
+					o.NUMANodeResources = append(o.NUMANodeResources, NUMANodeResource{Node: n, Resources: corev1.ResourceList{
+						corev1.ResourceCPU:    *resource.NewMilliQuantity(int64(tp.cpusIn(n))*1000, resource.DecimalSI),
+						corev1.ResourceMemory: *resource.NewQuantity(1<<20, resource.BinarySI)}})
+				}
 			})
-			c.Op("topology arrives: %s", tp)
+			c.Op("topology arrives: %s maxRef=%d", tp, maxRef)
 			var toRelease []*pendPod
 			for _, p := range pods {
 				if !p.late && r.Pct(50) {
@@ -920,14 +1355,38 @@ func TestVerifC06PendingConcurrent(t *testing.T) {
 			na.lock.RLock()
 			defer na.lock.RUnlock()
 			live := 0
+			// holders of every cpu among the live pods; a cpu is free for a new pod iff it has fewer holders than the sharing limit
+			liveHolders := map[int]int{}
+			sumRes := map[int]corev1.ResourceList{}
+			for _, p := range pods {
+				if p.released {
+					continue
+				}
+				for _, id := range p.alloc.CPUSet.ToSliceNoSort() {
+					liveHolders[id]++
+				}
+				for n, rl := range c06NUMAAmounts(p.alloc) {
+					if sumRes[n] == nil {
+						sumRes[n] = corev1.ResourceList{}
+					}
+					for name, q := range rl {
+						cur := sumRes[n][name]
+						cur.Add(q)
+						sumRes[n][name] = cur
+					}
+				}
+			}
+			shouldBeFree := func(set cpuset.CPUSet) cpuset.CPUSet {
+				return set.Filter(func(id int) bool { return liveHolders[id] < maxRef })
+			}
 			for _, p := range pods {
 				held, ok := na.allocatedPods[p.alloc.UID]
 				if p.released {
 					if ok {
 						c.Fail("C06/pending/released-pod-still-recorded", "pod %s was released (deleted) but the ledger still records it with cpus %s", p.alloc.UID, held.CPUSet.String())
 					}
-					if !p.alloc.CPUSet.IsSubsetOf(avail) {
-						c.Fail("C06/pending/released-cpus-not-free", "pod %s was released but its cpus %s are not available (available %s)", p.alloc.UID, p.alloc.CPUSet.String(), avail.String())
+					if !shouldBeFree(p.alloc.CPUSet).IsSubsetOf(avail) {
+						c.Fail("C06/pending/released-cpus-not-free", "pod %s was released but its cpus %s are not available (available %s, sharing limit %d)", p.alloc.UID, p.alloc.CPUSet.String(), avail.String(), maxRef)
 					}
 					continue
 				}
@@ -938,8 +1397,11 @@ func TestVerifC06PendingConcurrent(t *testing.T) {
 				if !held.CPUSet.Equals(p.alloc.CPUSet) {
 					c.Fail("C06/pending/wrong-cpus", "pod %s recorded with cpus %s, delivered %s", p.alloc.UID, held.CPUSet.String(), p.alloc.CPUSet.String())
 				}
-				if !avail.Intersection(p.alloc.CPUSet).IsEmpty() {
-					c.Fail("C06/pending/held-cpus-available", "cpus %s of live pod %s are reported available (%s)", avail.Intersection(p.alloc.CPUSet).String(), p.alloc.UID, avail.String())
+				if full := p.alloc.CPUSet.Difference(shouldBeFree(p.alloc.CPUSet)); !avail.Intersection(full).IsEmpty() {
+					c.Fail("C06/pending/held-cpus-available", "cpus %s of live pod %s are reported available (%s) although they have reached the sharing limit %d", avail.Intersection(full).String(), p.alloc.UID, avail.String(), maxRef)
+				}
+				if n, name, differ := c06AmountsDiffer(c06NUMAAmounts(&held), c06NUMAAmounts(p.alloc)); differ {
+					c.Fail("C06/pending/wrong-numa-amounts", "pod %s recorded with %s, delivered %s (NUMA node %d %s)", p.alloc.UID, c06AllocStr(&held), c06AllocStr(p.alloc), n, name)
 				}
 			}
 			if len(na.allocatedPods) != live {
@@ -955,6 +1417,24 @@ func TestVerifC06PendingConcurrent(t *testing.T) {
 				if info.RefCount != holders {
 					c.Fail("C06/pending/refcount", "cpu %d: ref count %d, held by %d live pods", id, info.RefCount, holders)
 				}
+			}
+			for id, h := range liveHolders {
+				if na.allocatedCPUs[id].RefCount != h {
+					c.Fail("C06/pending/refcount", "cpu %d: ref count %d, held by %d live pods", id, na.allocatedCPUs[id].RefCount, h)
+				}
+			}
+			led := map[int]corev1.ResourceList{}
+			for n, res := range na.allocatedResources {
+				if res != nil {
+					led[n] = res.Resources
+				}
+			}
+			if n, name, differ := c06AmountsDiffer(led, sumRes); differ {
+				a, b := led[n][name], sumRes[n][name]
+				c.Fail("C06/pending/numa-amount", "NUMA node %d ledger %s=%s, live pods hold %s", n, name, a.String(), b.String())
+			}
+			if maxRef > 1 {
+				c.Count("pending_conc_rounds_shared_cpus", 1)
 			}
 			c.Count("pending_conc_checks", 1)
 		})
